@@ -874,7 +874,9 @@ func init() {
 func init() {
 	// C03 (TCP end to end): frames larger than the connection's read buffer (bodies of 1 MiB and 3 MiB are legal: the limit is 16 MiB - 1)
 	// arrive in many reads and are delivered whole, in order, with the small frames around them
-	register(&scenario{Name: "c03/tcp-big-frames", Props: []string{"C03", "C13"}, Quick: true, TimeoutU: 400, Run: func(t *T) {
+	// (the second registration runs the same history with both protocol versions in the quick tier: the largest legal v2 frame carries a
+	// metadata block of 65535 bytes and the 24-byte nonce/signature trailer on top of the largest body)
+	bigFrames := func(t *T) {
 		p := newPeer(t, t.Transport, t.Version)
 		defer p.Shutdown()
 		var mu sync.Mutex
@@ -894,7 +896,7 @@ func init() {
 				f.verify, f.nonce, f.sig = 1, 0x0102030405060708, []byte("0123456789abcdef")
 				if p.version == 2 {
 					v := strings.Repeat("m", 32767)
-					f.md = append(append(encStr([]byte("a")), encStr([]byte(v))...), append(encStr([]byte("b")), encStr([]byte(v[:32761]))...)...)
+					f.md = append(append(encStr([]byte("a")), encStr([]byte(v))...), append(encStr([]byte("b")), encStr([]byte(v[:32760]))...)...)
 				}
 			}
 			frames = append(frames, specEncode(p.version, f))
@@ -908,7 +910,7 @@ func init() {
 					if len(fr) > 1<<24 && pc.ws == nil {
 						// the largest frame arrives in two segments, the second being its last 5 bytes
 						pc.SendRaw(fr[:len(fr)-5])
-						time.Sleep(t.U(2))
+						time.Sleep(t.U(12)) // long enough for the client to have consumed the first segment on a loaded machine
 						pc.SendRaw(fr[len(fr)-5:])
 						continue
 					}
@@ -937,7 +939,9 @@ func init() {
 		t.Check("tcp_reading_spec", r.Err == nil, "the response sent after the large frames never arrived: %v", r.Err)
 		t.Check("tcp_reading_spec", strings.Join(got, " ") == strings.Join(want, " "), "frames delivered to the application %v differ from the frames the peer sent %v (body length:checksum)", got, want)
 		t.Check("dispatch_spec", strings.Join(got, " ") == strings.Join(want, " "), "pushes delivered %v, sent %v", got, want)
-	}})
+	}
+	register(&scenario{Name: "c03/tcp-big-frames", Props: []string{"C03", "C13"}, Quick: true, TimeoutU: 400, Run: bigFrames})
+	register(&scenario{Name: "c03/v2-big-frames", Props: []string{"C03"}, Quick: true, TimeoutU: 400, Transports: []string{"tcp"}, Run: bigFrames})
 }
 
 func fnv64(b []byte) uint64 {
